@@ -11,15 +11,15 @@ CORRESPONDENCE_ONLY = []
 
 
 class Op:
-    def __init__(self, name, cname, coq, pre, call, gen, mutating=False, pre_only=False):
-        self.name, self.cname, self.coq, self.pre, self.call, self.gen = name, cname, coq, pre, call, gen
-        self.mutating, self.pre_only = mutating, pre_only
+    def __init__(self, name, pre_c, guard_c, coq, pre, call, gen, mutating=False):
+        self.name, self.pre_c, self.guard_c, self.coq, self.pre, self.call, self.gen = name, pre_c, guard_c, coq, pre, call, gen
+        self.mutating = mutating
 
 
-def reg(name, cname, coq, pre, call, gen, mutating=False, pre_only=False):
-    OPS[name] = Op(name, cname, coq, pre, call, gen, mutating, pre_only)
-    if pre_only:
-        CORRESPONDENCE_ONLY.append(name)
+def reg(name, cname, coq, pre, call, gen, mutating=False, guard=True):
+    """cname: 'x' -> pre_x / guard_x;  ('p', 'g') -> pre_p / guard_g;  guard=False -> only pre_x exists (no guard model)"""
+    pre_c, guard_c = (cname, cname) if isinstance(cname, str) else cname
+    OPS[name] = Op(name, pre_c, guard_c if guard else None, coq, pre, call, gen, mutating)
 
 
 # ------------------------------------------------------------------------------------------------
@@ -487,3 +487,82 @@ reg("tensor.ttm", "tensor_ttm",
     _pre_ttm,
     lambda a: (lambda t, ms: ([t, ms], lambda: t.ttm(ms, *_dims(a), transpose=a["tr"])))(T(a["s"]), [arr(m, 3) for m in a["ms"]]),
     _g_ttm)
+
+
+# ================================================================================================
+# known findings: trigger predicates (as narrow as the defect) and witnesses
+# ================================================================================================
+FINDINGS = []      # source of findings.d/C19.jsonl (written by `python3 tools/props/c19_ops.py --findings`)
+
+
+def finding(fid, trigger, pred, op, witness, what, call_site, proposed="fix"):
+    TRIGGERS[trigger] = lambda c, _p=pred: bool(_p(c.op, c.args))
+
+    def wit(_op=op, _w=witness):
+        o = run(_op, _w)
+        if "harness" in o:
+            return "witness could not be built: " + o["harness"]
+        return None if o["rejected"] else f"{_op}{_w} is answered, not rejected"
+    WITNESSES[fid] = wit
+    FINDINGS.append({"property": "C19", "finding_id": fid, "status": "open", "op": None, "trigger": trigger,
+                     "call_site": call_site, "what": what, "witness": {"op": op, "args": witness},
+                     "expected": "an exception (request rejected)", "observed": "a value is returned", "proposed": proposed})
+
+
+def _wrapped_distinct(N, l):
+    return all(-N <= x < N for x in l) and len({x % N for x in l}) == len(l) if N > 0 else False
+
+
+def _bcast(a, b):
+    return all(x == y or x == 1 or y == 1 for x, y in zip(a[::-1], b[::-1]))
+
+
+DENSE_BINOPS = {"tensor.add", "tensor.sub", "tensor.mul", "tensor.logical_and", "tensor.eq", "tensor.le"}
+
+finding("A-28", "permute_all_ones",
+        lambda op, a: op == "tensor.permute" and len(a["order"]) == len(a["s"]) >= 1 and all(x == 1 for x in a["order"]),
+        "tensor.permute", {"s": [4], "order": [1]},
+        "tensor.permute: the '(order == 1).all()' shortcut returns a copy for any all-ones order ([1] on a 1-way tensor, "
+        "[1,1] on a matrix) instead of rejecting the invalid permutation", "tensor.permute")
+finding("C19-N01", "permute_negative_axes",
+        lambda op, a: op == "tensor.permute" and len(a["order"]) == len(a["s"]) and any(x < 0 for x in a["order"])
+        and _wrapped_distinct(len(a["s"]), a["order"]),
+        "tensor.permute", {"s": [2, 3], "order": [-1, 0]},
+        "tensor.permute: negative modes are passed to np.transpose, which wraps them around, so order [-1,0] is answered",
+        "tensor.permute")
+finding("C19-N02", "dense_binop_broadcast",
+        lambda op, a: op in DENSE_BINOPS and a["s"] != a["u"] and _bcast(a["s"], a["u"]),
+        "tensor.add", {"s": [2, 3], "u": [1, 3]},
+        "dense element-wise binary operations (+ - * logical_* comparisons via tenfun) never compare shapes: operands of "
+        "different shape are answered whenever numpy can broadcast them", "tensor.tenfun_binary")
+finding("C19-N03", "contract_negative_2way",
+        lambda op, a: op == "tensor.contract" and len(a["s"]) == 2 and (a["i1"] < 0 or a["i2"] < 0)
+        and -2 <= a["i1"] < 2 and -2 <= a["i2"] < 2 and a["i1"] != a["i2"] and a["s"][a["i1"]] == a["s"][a["i2"]],
+        "tensor.contract", {"s": [3, 3], "i1": -1, "i2": 0},
+        "tensor.contract on a matrix: negative modes index self.shape with wrap-around and np.trace is returned "
+        "(contract(-2, 0) even traces mode 0 against itself)", "tensor.contract")
+
+
+def _rep_in_range(a):
+    d = a.get("dims")
+    return d is not None and a.get("excl") is None and len(set(d)) != len(d) and all(0 <= x < len(a["s"]) for x in d)
+
+
+finding("A-42", "repeated_dims",
+        lambda op, a: op in REPEATED_DIMS_OPS and _rep_in_range(a),
+        "tensor.ttm", {"s": [2, 3], "ms": [[2, 2], [2, 2]], "dims": [0, 0], "excl": None, "tr": False},
+        "tt_dimscheck accepts repeated dims; callers then answer when the sizes happen to chain (ttm applies both "
+        "matrices to the same mode; ttv on a length-1 1-way tensor; collapse/scale ...)", "pyttb_utils.tt_dimscheck")
+REPEATED_DIMS_OPS = {"tensor.ttv", "tensor.ttm"}
+
+
+if __name__ == "__main__":
+    import json
+    import os
+    import sys
+    if "--findings" in sys.argv:
+        p = os.path.join(os.path.dirname(os.path.abspath(__file__)), "..", "..", "findings.d", "C19.jsonl")
+        with open(p, "w") as fh:
+            for f in FINDINGS:
+                fh.write(json.dumps(f) + "\n")
+        print("wrote", len(FINDINGS), "findings")
